@@ -95,6 +95,15 @@ def operations():
     for d in D:
         for n in N:
             op(f"add_destination({d},{n})", lambda net, U, d=d, n=n: net.add_destination(U.dests[d], U.nodes[n]), lambda m, d=d, n=n: m.add_dest(d, n))
+    # one-shot iterables are legitimate arguments (signature: Iterable)
+    op("add_links(generator[(A,L2,B),(B,L1,C)])",
+       lambda net, U: net.add_links((x for x in [(U.nodes["A"], U.links["L2"], U.nodes["B"]), (U.nodes["B"], U.links["L1"], U.nodes["C"])])),
+       lambda m: (m.add_link("A", "L2", "B"), m.add_link("B", "L1", "C")))
+    op("add_links(zip)", lambda net, U: net.add_links(zip([U.nodes["C"]], [U.links["L1"]], [U.nodes["A"]])), lambda m: m.add_link("C", "L1", "A"))
+    op("add_nodes(iterator[C,B])", lambda net, U: net.add_nodes(iter([U.nodes["C"], U.nodes["B"]])), lambda m: (m.add_node("C"), m.add_node("B")))
+    op("add_path(iterator A-L2-C)", lambda net, U: net.add_path(iter([U.nodes["A"], U.links["L2"], U.nodes["C"]]), origin=U.origins["O1"]),
+       lambda m: (m.add_node("A"), m.add_origin("O1", "A"), m.add_link("A", "L2", "C")))
+
     # paths
     def path_real(seq, o=None, d=None):
         def f(net, U):
@@ -117,6 +126,19 @@ def operations():
                       (("B", "L1", "A"), None, "D2"), (("C", "L1", "C"), "O1", None), (("A", "L1", "B", "L2", "A"), None, None)):
         op(f"add_path({'-'.join(seq)},o={o},d={d})", path_real(seq, o, d), path_model(seq, o, d))
     return ops
+
+
+def failing_calls():
+    """calls that raise after having modified the graph partly: (label, real) -- whatever they leave behind,
+    every lookup must afterwards still equal its recomputation from the graph (C08)."""
+    F = []
+    F.append(("add_links([(A,L2,B),(B,L1)]) second tuple malformed", lambda net, U: net.add_links([(U.nodes["A"], U.links["L2"], U.nodes["B"]), (U.nodes["B"], U.links["L1"])])))
+    F.append(("add_nodes([C,None])", lambda net, U: net.add_nodes([U.nodes["C"], None])))
+    F.append(("add_link(C,L1,None)", lambda net, U: net.add_link(U.nodes["C"], U.links["L1"], None)))
+    F.append(("add_path(A-L1-C-junk)", lambda net, U: net.add_path([U.nodes["A"], U.links["L1"], U.nodes["C"], U.junk], origin=U.origins["O2"])))
+    F.append(("add_path(C-L2-B-L1) ends with link", lambda net, U: net.add_path([U.nodes["C"], U.links["L2"], U.nodes["B"], U.links["L1"]], destination=U.dests["D2"])))
+    F.append(("add_origin(O2,None)", lambda net, U: net.add_origin(U.origins["O2"], None)))
+    return F
 
 
 def malformed_paths():
